@@ -1727,6 +1727,78 @@ def inline_adjacent_temps(repo, rebuild, only_keys=None):
 
 
 # ---------------------------------------------------------------------------------------------------------------------
+# copies that helper expansion leaves behind:  v__inlK = x ... (x untouched) ... x = v__inlK   ->   the region works on x itself
+
+import re as _re
+_INL = _re.compile(r"__inl\d+$")
+
+
+def _mentions(node, name):
+    return any(isinstance(y, ast.Name) and y.id == name for y in ast.walk(node))
+
+
+def _coalesce_in_block(block, fnode):
+    n = 0
+    j = 0
+    while j < len(block):
+        st = block[j]
+        if isinstance(st, ast.Assign) and len(st.targets) == 1 and isinstance(st.targets[0], ast.Name) and isinstance(st.value, ast.Name) \
+                and _INL.search(st.value.id) and not _INL.search(st.targets[0].id):
+            x, y = st.targets[0].id, st.value.id
+            first = next((i for i in range(j) if _mentions(block[i], y)), None)
+            uses_elsewhere = sum(1 for z in ast.walk(fnode) if isinstance(z, ast.Name) and z.id == y) - \
+                sum(1 for i in range(first if first is not None else j, j + 1) for z in ast.walk(block[i]) if isinstance(z, ast.Name) and z.id == y)
+            if first is not None and uses_elsewhere == 0:
+                region = block[first:j]
+                head = region[0]
+                head_is_copy = isinstance(head, ast.Assign) and len(head.targets) == 1 and isinstance(head.targets[0], ast.Name) and \
+                    head.targets[0].id == y and isinstance(head.value, ast.Name) and head.value.id == x
+                rest = region[1:] if head_is_copy else region
+                if not any(_mentions(r, x) for r in rest):
+                    for r in region:
+                        for z in ast.walk(r):
+                            if isinstance(z, ast.Name) and z.id == y:
+                                z.id = x
+                    drop = [j] + ([first] if head_is_copy else [])
+                    for k in sorted(drop, reverse=True):
+                        del block[k]
+                    n += 1
+                    j -= len(drop) - 1
+                    continue
+        j += 1
+    return n
+
+
+def coalesce_inlined_copies(repo, rebuild):
+    changed = set()
+    for rel, m in repo.modules.items():
+        n = 0
+        for f in [x for x in ast.walk(m.tree) if isinstance(x, _FUNC)]:
+            if not any(isinstance(z, ast.Name) and _INL.search(z.id) for z in ast.walk(f)):
+                continue
+            for holder in ast.walk(f):
+                if isinstance(holder, ast.Try) or (holder is not f and isinstance(holder, _FUNC)):
+                    continue
+                for field in ("body", "orelse"):
+                    blk = getattr(holder, field, None)
+                    if isinstance(blk, list) and blk and isinstance(blk[0], ast.stmt):
+                        # not inside a try: an exception half-way would leave x changed where the original left it alone
+                        p, in_try = holder, False
+                        while p is not None and p is not f:
+                            if isinstance(p, ast.Try):
+                                in_try = True
+                            p = getattr(p, "_parent", None)
+                        if not in_try:
+                            n += _coalesce_in_block(blk, f)
+        if n:
+            ast.fix_missing_locations(m.tree)
+            changed.add(rel)
+    if changed:
+        rebuild(repo, changed)
+    return len(changed)
+
+
+# ---------------------------------------------------------------------------------------------------------------------
 # literal folding: loops / comprehensions over a literal sequence of constants, setattr / getattr with a constant name
 
 
@@ -1810,6 +1882,20 @@ class _FoldLiterals(ast.NodeTransformer):
         if d in ("bytes", "str") and not node.args and not node.keywords:
             self.count += 1
             return ast.copy_location(ast.Constant(value=b"" if d == "bytes" else ""), node)
+        if d == "reversed" and len(node.args) == 1 and not node.keywords and isinstance(node.args[0], ast.Call) and dotted(node.args[0].func) == "range" \
+                and not node.args[0].keywords and 1 <= len(node.args[0].args) <= 2 and all(_effect_free(a) for a in node.args[0].args):
+            # reversed(range(n)) -> range(n - 1, -1, -1);  reversed(range(a, b)) -> range(b - 1, a - 1, -1)      (same integers in the same order)
+            ra = node.args[0].args
+            lo = ra[0] if len(ra) == 2 else ast.Constant(value=0)
+            hi = ra[-1]
+            def minus1(e):
+                if isinstance(e, ast.Constant) and isinstance(e.value, int) and not isinstance(e.value, bool):
+                    v = e.value - 1
+                    return ast.UnaryOp(op=ast.USub(), operand=ast.Constant(value=-v)) if v < 0 else ast.Constant(value=v)
+                return ast.BinOp(left=e, op=ast.Sub(), right=ast.Constant(value=1))
+            self.count += 1
+            return ast.copy_location(ast.Call(func=ast.Name(id="range", ctx=ast.Load()), args=[minus1(hi), minus1(lo), ast.UnaryOp(op=ast.USub(), operand=ast.Constant(value=1))],
+                                              keywords=[]), node)
         if isinstance(node.func, ast.Attribute) and node.func.attr == "join" and isinstance(node.func.value, ast.Constant) and node.func.value.value == b"" and \
                 len(node.args) == 1 and not node.keywords and isinstance(node.args[0], (ast.Tuple, ast.List)) and 2 <= len(node.args[0].elts) <= 16 and \
                 not any(isinstance(x, ast.Starred) for x in node.args[0].elts) and self.module.rel.startswith("schemes/"):
@@ -2656,8 +2742,10 @@ def normalize(repo, rebuild):
             for rel in dropped:
                 ast.fix_missing_locations(repo.modules[rel].tree)
             rebuild(repo, dropped)
+    coalesce_inlined_copies(repo, rebuild)
     fold_literals(repo, rebuild)
     lower_tuples_and_records(repo, rebuild)
+    coalesce_inlined_copies(repo, rebuild)
     inline_attr_aliases(repo, rebuild)
     repo.temps_inlined = inline_adjacent_temps(repo, rebuild)
     if fold_literals(repo, rebuild):
